@@ -439,11 +439,16 @@ class Rewriter:
     def r3(self, text, patterns):
         """patterns: list of (regex, replacement) applied at code positions; used to drop
         `format!`/string message arguments of error constructors.  Declared per unit."""
-        for rx, rep in patterns:
+        for pat in patterns:
+            rx, rep = pat[0], pat[1]
+            optional = len(pat) > 2 and pat[2]
             text, k = re.subn(rx, rep, text, flags=re.S)
-            if k == 0:
+            if k == 0 and not optional:
                 # a declared substitution that no longer applies: the code changed shape
                 raise AnchorError('substitution /%s/ matched nothing' % rx)
+            # an OPTIONAL substitution (`sub? /re/ => text`) rewrites a construct Verus cannot take
+            # (a closure, a format!) where it occurs; where it does not occur there is nothing to
+            # rewrite and the text goes to the verifier as it is
             self.bump('R3', k)
         return text
 
